@@ -94,7 +94,7 @@ Proof.
   split.
   - now apply nodupb_sound.
   - intros r Hr. apply (R r Hr).
-  - intros r Hr. apply (R r Hr).
+  - intros r Hr. apply rok_rokP. apply (R r Hr).
   - intros r Hr. apply lits_validb_sound. apply (R r Hr).
   - intros Hw. rewrite Hw in H3. exact H3.
   - intros Hc. rewrite Hc in H4. exact H4.
